@@ -216,7 +216,8 @@ def real_zckdl(ctx, files, wl, cfg, npairs=60, maxrs=(1, 2, 255), init_names=("a
 def run(ctx):
     thorough = ctx.tier == "thorough"
     alpha = "abc" if thorough else "ab"
-    wl = [""] + list(core.words(3, alpha, 1))
+    # ... plus words with a one-byte chunk (alone, first, middle, last, twice): its inclusive range is "n-n"
+    wl = [""] + list(core.words(3, alpha, 1)) + ["e", "ea", "ae", "aea", "eae"]
     combos = [("none", Cfg(0, b"", 0, 3, 1), Cfg(0, b"", 0, 3, 1)), ("zstd", Cfg(2, b"", 0, 3, 1), Cfg(2, b"", 0, 3, 1))]
     if thorough:
         combos += [("zstd+dict", Cfg(2, D, 0, 3, 1), Cfg(2, D, 0, 3, 1)), ("zstd-dicts-differ", Cfg(2, D, 0, 3, 1), Cfg(2, D2, 0, 3, 1)),
